@@ -23,8 +23,10 @@ import (
 	"github.com/apache/skywalking-banyandb/pkg/fs"
 	"github.com/apache/skywalking-banyandb/pkg/logger"
 	pbv1 "github.com/apache/skywalking-banyandb/pkg/pb/v1"
+	"github.com/apache/skywalking-banyandb/pkg/run"
 	resourceSchema "github.com/apache/skywalking-banyandb/pkg/schema"
 	"github.com/apache/skywalking-banyandb/pkg/timestamp"
+	"github.com/apache/skywalking-banyandb/pkg/watcher"
 )
 
 // Exports for the /verif C17 driver: a data-node measure TSDB on a temp dir with the real chunked-sync
@@ -172,10 +174,7 @@ type VerifC17SenderPart struct {
 	Dir     string
 }
 
-// VerifC17BuildPart builds data points from the seed with the real memPart encoder, flushes them to
-// <root>/<id hex> and opens the directory as a file part (what a liaison holds after flushing its write queue).
-func VerifC17BuildPart(root string, id uint64, seed int64, series, points int, baseTS int64) *VerifC17SenderPart {
-	lfs := fs.NewLocalFileSystem()
+func verifC17Points(seed int64, series, points int, baseTS int64) *dataPoints {
 	dps := &dataPoints{}
 	x := uint64(seed)*2654435761 + 12345
 	next := func() uint64 {
@@ -209,6 +208,14 @@ func VerifC17BuildPart(root string, id uint64, seed int64, series, points int, b
 			}})
 		}
 	}
+	return dps
+}
+
+// VerifC17BuildPart builds data points from the seed with the real memPart encoder, flushes them to
+// <root>/<id hex> and opens the directory as a file part (what a liaison holds after flushing its write queue).
+func VerifC17BuildPart(root string, id uint64, seed int64, series, points int, baseTS int64) *VerifC17SenderPart {
+	lfs := fs.NewLocalFileSystem()
+	dps := verifC17Points(seed, series, points, baseTS)
 	mp := generateMemPart()
 	mp.mustInitFromDataPoints(dps)
 	dir := partPath(root, id)
@@ -242,3 +249,87 @@ func (sp *VerifC17SenderPart) Close() {
 	}
 	sp.p.close()
 }
+
+// VerifC17Liaison is a liaison-side write queue shard (the tsTable of newWriteQueue) whose sync loop is driven
+// by hand: the introducer and flusher loops run as in startLoopWithConditionalMerge, syncSnapshot is called
+// explicitly by the driver.
+type VerifC17Liaison struct {
+	tst    *tsTable
+	syncCh chan *syncIntroduction
+}
+
+// VerifC17OpenLiaison opens the write queue shard under root, syncing to the given nodes through client.
+func VerifC17OpenLiaison(root, group string, client queue.Client, nodes []string, failedPartsQuota uint64) (*VerifC17Liaison, error) {
+	if err := os.MkdirAll(root, storage.DirPerm); err != nil {
+		return nil, err
+	}
+	opt := option{
+		protector: protector.Nop{}, mergePolicy: newDefaultMergePolicy(), tire2Client: client,
+		flushTimeout: 20 * time.Millisecond, syncInterval: time.Hour, failedPartsMaxTotalSizeBytes: failedPartsQuota,
+	}
+	tst, epoch := initTSTable(fs.NewLocalFileSystem(), root, common.Position{}, logger.GetLogger("verif-c17-liaison"), opt, nil)
+	tst.getNodes = func() []string { return nodes }
+	tst.group = group
+	tst.shardID = 0
+	tst.loopCloser = run.NewCloser(1 + 2)
+	tst.introductions = make(chan *introduction)
+	flushCh := make(chan *flusherIntroduction)
+	mergeCh := make(chan *mergerIntroduction)
+	syncCh := make(chan *syncIntroduction)
+	introducerWatcher := make(watcher.Channel, 1)
+	flusherWatcher := make(watcher.Channel, 1)
+	go tst.introducerLoopWithSync(flushCh, mergeCh, syncCh, introducerWatcher, epoch+1)
+	go tst.flusherLoop(flushCh, mergeCh, introducerWatcher, flusherWatcher, epoch)
+	return &VerifC17Liaison{tst: tst, syncCh: syncCh}, nil
+}
+
+// AddPoints appends generated data points to the write queue (one mem part); returns the number of rows.
+func (l *VerifC17Liaison) AddPoints(seed int64, series, points int, baseTS int64) int {
+	dps := verifC17Points(seed, series, points, baseTS)
+	n := len(dps.timestamps)
+	l.tst.mustAddDataPoints(dps)
+	return n
+}
+
+// FileParts lists the flushed (file) parts of the current snapshot as directories; mem counts the mem parts.
+func (l *VerifC17Liaison) FileParts() (dirs []string, mem int) {
+	snp := l.tst.currentSnapshot()
+	if snp == nil {
+		return nil, 0
+	}
+	defer snp.decRef()
+	for _, pw := range snp.parts {
+		if pw.mp != nil {
+			mem++
+		} else {
+			dirs = append(dirs, pw.p.path)
+		}
+	}
+	return dirs, mem
+}
+
+// SyncOnce runs tsTable.syncSnapshot on the current snapshot (what one iteration of syncLoop does).
+func (l *VerifC17Liaison) SyncOnce() error {
+	snp := l.tst.currentSnapshot()
+	if snp == nil {
+		return nil
+	}
+	defer snp.decRef()
+	return l.tst.syncSnapshot(snp, l.syncCh)
+}
+
+// FailedDir lists the entries of <root>/failed-parts.
+func (l *VerifC17Liaison) FailedDir() []string {
+	var out []string
+	if _, err := os.Stat(filepath.Join(l.tst.root, storage.FailedPartsDirName)); err != nil {
+		return out
+	}
+	for _, e := range l.tst.fileSystem.ReadDir(filepath.Join(l.tst.root, storage.FailedPartsDirName)) {
+		out = append(out, e.Name())
+	}
+	sort.Strings(out)
+	return out
+}
+
+// Close stops the loops.
+func (l *VerifC17Liaison) Close() error { return l.tst.Close() }
